@@ -479,7 +479,7 @@ def main():
     chk.bounds = ["flavour dimension 14 (fixed by the code), x grid of 2 points (quick) / 2-3 points (thorough), 2 evolution points (one stored with, one without error), 1-2 replicas",
                   "operator, error, input values, x nodes (>0), initial scale symbolic reals",
                   "flavour rotation: none, fully symbolic 14x14 (rotate_result), the two eko tables selected by apply_pdf (QCD / QED) ; re-interpolation matrix: none or fully symbolic (2-3 target points)",
-                  "missing flavours: availability of 2 (quick) / 4 (thorough) PIDs at a time symbolic (z3 Bool, all combinations), the remaining PIDs all present or all absent; groups cover all 14 PIDs in the thorough tier"]
+                  "missing flavours: availability of 2 (quick) / 4 (thorough) PIDs at a time symbolic (z3 Bool, all combinations), the remaining PIDs all present or all absent; groups cover all 14 PIDs in the thorough tier (all 8 (QED, rotate, target) configurations with the first group, the other group/rest patterns with the configurations in turn)"]
     chk.out_of_claim = ["the entries of the re-interpolation matrix (exactness of InterpolatorDispatcher.get_interpolation is C34) and of the rotation tables (C31)",
                         "EKO.items() loading/unloading from disk (C37-C39); floating-point summation order of einsum(optimize='optimal')"]
     chk.stubs = ["EKO -> in-memory stand-in exposing items(), xgrid(.raw, len), mu20, theory_card.order, operator_card.configs.interpolation_polynomial_degree",
@@ -497,7 +497,10 @@ def main():
     pids = list(br.flavor_basis_pids)
     if thorough:
         groups = [pids[0:4], pids[4:7] + [pids[8]], pids[9:12], pids[12:14] + [pids[1], pids[8]]]
-        combos = [(qed, rot, m, g, rest) for qed in (0, 1) for rot in (False, True) for m in (None, 2) for g in groups for rest in (True, False)]
+        cfgs = [(qed, rot, m) for qed in (0, 1) for rot in (False, True) for m in (None, 2)]
+        # every (qed, rotate, target) configuration with the first group; every group x rest pattern with the configurations in turn
+        combos = [(qed, rot, m, groups[0], True) for qed, rot, m in cfgs]
+        combos += [cfgs[(3 * gi + ri + 1) % 8] + (g, rest) for gi, g in enumerate(groups) for ri, rest in enumerate((True, False)) if not (gi == 0 and rest)]
     else:
         groups = [[22, 1], [-1, 6]]
         combos = [(0, False, None, groups[0], True), (0, True, 2, groups[1], False), (1, True, None, groups[0], False), (1, False, 3, groups[1], True)]
